@@ -39,7 +39,7 @@ type c19Req struct {
 	Host   string `json:"host"`   // Host header
 	Path   string `json:"path"`
 	Auth   string `json:"auth"`
-	Kind   string `json:"kind"`            // index | chart | prov
+	Kind   string `json:"kind"`             // index | chart | prov
 	Follow bool   `json:"follow,omitempty"` // request follows a redirect issued by the capture server
 }
 
